@@ -10,7 +10,7 @@ theorem processObjectX_erase (cfg : Cfg) (now : Int) (ca : CaCtx) (vm : ValidMft
     processObject cfg now ca vm ext content a.items (a.kids.map (·.ctx))
       = ((processObjectX cfg now ca vm pd ext content a).items,
          (processObjectX cfg now ca vm pd ext content a).kids.map (·.ctx)) := by
-  unfold processObject processObjectX
+  unfold processObject processObjectX Acc.addPayload
   cases ext <;> cases content <;> simp only [] <;> (repeat' split) <;>
     simp_all [List.isEmpty_iff]
 
